@@ -248,3 +248,54 @@ pub fn run_deep_recursion(seed: u64, n: usize, out: &mut Out) {
         out.add_spec(Case { input, coq: format!("run_sem {coq_args}"), imp, nontrivial, key: format!("sdr{i}:{text}") }, None);
     }
 }
+
+
+/// Nested folds with several imported tags: a fold importing a root tag, a nested fold importing a tag
+/// of its own, and the root tag used AGAIN after the nested fold (later edge filter, count filter of a
+/// later nested fold, a second nested fold): tie + specification oracle + panic oracle.
+pub fn run_nested_imports(seed: u64, n: usize, out: &mut Out) {
+    let mut rng = Rng::new(seed ^ 0x1a95);
+    let schema = world::schema();
+    for i in 0..n {
+        let mut r2 = rng.fork();
+        let root = *r2.pick(&["Thing", "Item", "Box"]);
+        let e1 = *r2.pick(&["link", "next", "next(hi: 9)"]);
+        let e2 = *r2.pick(&["next", "link", "parent"]);
+        let e3 = *r2.pick(&["link", "next", "parent"]);
+        let op = *r2.pick(&["<=", ">=", "!=", "<"]);
+        let after = match r2.range(0, 3) {
+            0 => format!("{e3} @optional {{ id @filter(op: \"!=\", value: [\"%a\"]) @output(name: \"y\") }}"),
+            1 => format!("{e3} @fold @transform(op: \"count\") @filter(op: \">=\", value: [\"%a\"]) @output(name: \"c\")"),
+            2 => format!("{e3} @fold {{ id @filter(op: \"{op}\", value: [\"%a\"]) @output(name: \"y\") }}"),
+            _ => format!("{e3} {{ id @filter(op: \"{op}\", value: [\"%a\"]) @output(name: \"y\") }}"),
+        };
+        let text = format!(
+            "query {{ {root} {{ id @tag(name: \"a\") @output(name: \"r\") {e1} @fold {{ id @tag(name: \"b\") @filter(op: \">=\", value: [\"%a\"]) @output(name: \"m\") {e2} @fold {{ id @filter(op: \"{op}\", value: [\"%b\"]) @output(name: \"x\") }} {after} }} }} }}");
+        let indexed = match parse(&schema, &text) {
+            Ok(ix) => ix,
+            Err(_) => {
+                out.count("nested-imports:template-rejected");
+                continue;
+            }
+        };
+        out.count("family:nested-imports");
+        let c = EngineCase {
+            dataset: world::gen_dataset(&mut r2, 8),
+            query_text: text.clone(),
+            indexed,
+            args: Arc::new(BTreeMap::new()),
+            features: Default::default(),
+            var_hints: Default::default(),
+        };
+        let o = run_impl(&c);
+        let imp = show_outcome(&o);
+        let nontrivial = matches!(&o, Outcome::Rows(r) if !r.is_empty());
+        let input = case_input_json(&c);
+        let coq_args = case_coq_args(&c);
+        if let Outcome::Panic(m) = &o {
+            out.oracle_fail("executing an accepted query panicked", input.clone(), json!({"panic": m.chars().take(300).collect::<String>()}));
+        }
+        out.add(Case { input: input.clone(), coq: format!("run_exec {coq_args}"), imp: imp.clone(), nontrivial, key: format!("ni{i}:{text}") });
+        out.add_spec(Case { input, coq: format!("run_sem {coq_args}"), imp, nontrivial, key: format!("sni{i}:{text}") }, None);
+    }
+}
